@@ -35,6 +35,7 @@ RULE = (
     "column, or a veto by a check that is not the last, or a second run on the same CID; distinct by hash of the case."
     "Plugin styles include 'lean' (checks inherit cleanup()); class stems include ones that end in 'Check' / 'FieldFormat'."
     "Recording checks keep the row map they were given and report when it changes; stems None / True / Match; plugin module __init__."
+    "Runs also go through cutplace.validate()."
 )
 ASSUMPTIONS = [
     "neutral: the order in which the checks are reset and the order in which they are cleaned up (only 'each exactly "
